@@ -705,6 +705,48 @@ def run_real_loop(app, task, kind: str, conf: dict, cpu: int, deaths: list[list[
 # configuration spaces
 # ------------------------------------------------------------------------------------------------
 
+def paused_worker_dies(ctx: Ctx, app, task, backend: str) -> None:
+    """ProcessRunner, one process per invocation: a worker whose invocation WAITS for another one is paused (SIGSTOP) and recorded in
+    `wait_invocation`; it is killed in that state (the OOM killer does not care).  The loop must forget it like any other dead
+    worker, send it no heartbeat, and give its slot to the queue - in particular to the invocation it was waiting for."""
+    for slots, cpu in ((1, 1), (2, 2)):
+        conf = {"min_parallel_slots": slots}
+        im = Impl(app, "process", conf, cpu)
+        drain(app)
+        with im.installed():
+            im.start()
+            route(task, slots)
+            im.iterate()                                   # the workers of the first invocations
+            first = dict(im.runner.child_runner_ids)
+            if not first:
+                ctx.obligation("C14 paused-worker probe: the process runner starts a worker for a queued invocation", False, f"slots {slots}, cpu {cpu}")
+                continue
+            rid, info = next(iter(first.items()))
+            route(task, 1)                                 # B: queued, what A's invocation waits for
+            b_id = None
+            q = app.broker.retrieve_invocation()
+            if q is not None:
+                b_id = q
+                app.broker.route_invocation(q)
+            im.runner.wait_invocation[b_id] = {info.invocation_id}      # what `_waiting_for_results` records for the paused worker
+            im.die([getattr(info, "process", info).idx])                # ... and the paused worker is killed
+            im.take_reports()
+            for _ in range(5):
+                im.iterate()
+                im.beat()
+            reps = im.take_reports()
+            still = rid in im.runner.child_runner_ids
+            beats_to_dead = [r for r, st in reps if st in ("dead", "dead-id")]
+            alive_n = len(im.alive())
+            ctx.count()
+            ctx.distinct((backend, "paused-worker-dies", slots))
+            if still or beats_to_dead or alive_n == 0:
+                ctx.report(f"process:paused-worker-never-forgotten[{backend}]",
+                           f"[{backend}] ProcessRunner with {slots} slot(s): the worker of an invocation that waits for a queued one is paused and then killed; after 5 loop "
+                           f"iterations it is {'still tracked' if still else 'forgotten'}, heartbeats sent for dead workers: {beats_to_dead[:3]}, {alive_n} live worker(s) "
+                           f"(the awaited invocation needs the slot)", {"family": "paused-worker", "backend": backend, "slots": slots, "cpu": cpu})
+
+
 def all_configs(ctx: Ctx) -> list[tuple[str, dict, int]]:
     q = ctx.quick
     cfgs: list[tuple[str, dict, int]] = []
@@ -790,6 +832,8 @@ def run(ctx: Ctx) -> None:
         by_mode[k] = by_mode.get(k, 0) + 1
         ctx.count(len(out.lines))
 
+    for bk in ("mem", "sqlite"):
+        paused_worker_dies(ctx, apps[bk], tasks[bk], bk)
     maxn = 3 if ctx.quick else 4
     # ---- (A) every pair of subsets ------------------------------------------------------------------
     order = list(cfgs)
